@@ -793,15 +793,55 @@ func (e *SpecEnv) call(x *ast.CallExpr) Val {
 					if li.ord != k {
 						continue
 					}
-					for _, in := range li.head.Instrs {
-						if phi, ok := in.(*ssa.Phi); ok {
-							return vc.topFrame.val(phi)
-						}
-						break
+					if phi := loopIndexPhi(li.head); phi != nil {
+						return vc.topFrame.val(phi)
 					}
 				}
 			}
 			return e.fail("loopvar(%d): no such loop (contract target changed)", k)
+		case "rangeval":
+			// rangeval(k): the element the current turn of range loop k was entered
+			// with (the value of `for _, v := range s` as loaded at the top of the
+			// turn), independent of what later calls did to the backing array
+			lit, ok := x.Args[0].(*ast.BasicLit)
+			if !ok {
+				return e.fail("rangeval(k)")
+			}
+			k, _ := strconv.Atoi(lit.Value)
+			if vc.topFrame != nil {
+				for _, li := range vc.topFrame.loops {
+					if li.ord != k {
+						continue
+					}
+					phi := loopIndexPhi(li.head)
+					if phi == nil {
+						break
+					}
+					for _, b := range vc.fn.Blocks {
+						if !li.body[b] && b != li.head {
+							continue
+						}
+						for _, in := range b.Instrs {
+							u, ok := in.(*ssa.UnOp)
+							if !ok || u.Op != token.MUL {
+								continue
+							}
+							ia, ok := u.X.(*ssa.IndexAddr)
+							if !ok {
+								continue
+							}
+							bo, ok := ia.Index.(*ssa.BinOp)
+							if !ok || bo.Op != token.ADD || bo.X != ssa.Value(phi) {
+								continue
+							}
+							if _, have := vc.topFrame.vals[u]; have {
+								return vc.topFrame.val(u)
+							}
+						}
+					}
+				}
+			}
+			return e.fail("rangeval(%d): no such range loop element at this point (contract target changed)", k)
 		case "ext":
 			return e.extCall(x)
 		case "called":
@@ -1316,4 +1356,24 @@ func replaceSym(t, sym, with string) string {
 		i++
 	}
 	return b.String()
+}
+
+// loopIndexPhi is the header phi a contract calls the loop variable: the range
+// index of a range loop when there is one (go/ssa names it "rangeindex"),
+// otherwise the first phi of the header.
+func loopIndexPhi(head *ssa.BasicBlock) *ssa.Phi {
+	var first *ssa.Phi
+	for _, in := range head.Instrs {
+		p, ok := in.(*ssa.Phi)
+		if !ok {
+			break
+		}
+		if first == nil {
+			first = p
+		}
+		if p.Comment == "rangeindex" {
+			return p
+		}
+	}
+	return first
 }
